@@ -124,6 +124,8 @@ def build(active_known=frozenset()):
     c.entry_live = True
     c.param("o", STR).param("human_readable", BOOL)
     c.setup(psetup)
+    c.requires("[property of str.translate, trusted] a string that contains no key of the table is translated to itself",
+               lambda a: z3.Implies(z3.And(*[z3.Not(z3.Contains(V.Val.s(a.o), z3.StringVal(ch))) for ch in live_code()]), TR(V.Val.s(a.o)) == V.Val.s(a.o)))
     c.raises()
     c.ensures("the readable printer wraps the character-wise escaped string in double quotes (and returns the string itself when asked for human-readable output)",
               lambda a: z3.And(V.is_str(a.result), V.Val.s(a.result) == z3.If(V.Val.b(a.human_readable), V.Val.s(a.o),
